@@ -516,7 +516,7 @@ def main(report, tier, seed, workers, calibrate=False):
     for blk in blocks:
         S = blk['setup']
         rungs = [dict(name='full', envs=[None], timeout=to),
-                 dict(name='slices:metric-value-fixed', envs=envs, timeout=to)]
+                 dict(name='slices:metric-value-fixed', envs=envs, timeout=4 * to)]
         if blk.get('sliced'):
             rungs = rungs[1:]
         sampler = S.sampler() if S is not None else None
